@@ -9,18 +9,20 @@ From Coq Require Import Lia.
 Open Scope N_scope.
 
 (* ---------- a parser positioned on a token list ---------- *)
-Definition pq (mt : pmeta) (syms refs : list text) (l : list token) (L C : Z) (cur : sline) (lines : list sline) : parser :=
+Definition pqg (en : bool) (mt : pmeta) (syms refs : list text) (l : list token) (L C : Z) (cur : sline) (lines : list sline) : parser :=
   match l with
-  | t :: r => mkP r t false L C false cur mt false lines syms refs
-  | [] => mkP [] tEOF true L C false cur mt false lines syms refs
+  | t :: r => mkP r t false L C false cur mt en lines syms refs
+  | [] => mkP [] tEOF true L C false cur mt en lines syms refs
   end.
+(* before an END line has been read *)
+Notation pq := (pqg false).
 
-Lemma pnext_pq mt sy rf t t2 r L C cur lines :
-  pnext (pq mt sy rf (t :: t2 :: r) L C cur lines) =
-  pq mt sy rf (t2 :: r) (match t_typ t with tokNewline => (L + 1)%Z | _ => L end) C cur lines.
+Lemma pnext_pq en mt sy rf t t2 r L C cur lines :
+  pnext (pqg en mt sy rf (t :: t2 :: r) L C cur lines) =
+  pqg en mt sy rf (t2 :: r) (match t_typ t with tokNewline => (L + 1)%Z | _ => L end) C cur lines.
 Proof. reflexivity. Qed.
-Lemma pnext_pq_nn mt sy rf t t2 r L C cur lines : t_typ t <> tokNewline ->
-  pnext (pq mt sy rf (t :: t2 :: r) L C cur lines) = pq mt sy rf (t2 :: r) L C cur lines.
+Lemma pnext_pq_nn en mt sy rf t t2 r L C cur lines : t_typ t <> tokNewline ->
+  pnext (pqg en mt sy rf (t :: t2 :: r) L C cur lines) = pqg en mt sy rf (t2 :: r) L C cur lines.
 Proof. intros H. rewrite pnext_pq. destruct (t_typ t); try reflexivity. congruence. Qed.
 
 (* ---------- what the compiler looks at ---------- *)
@@ -47,18 +49,18 @@ Definition term_tok (t : token) : Prop := tok_is_expr_term t = true.
 Lemma term_not_newline t : term_tok t -> t_typ t <> tokNewline.
 Proof. unfold term_tok, tok_is_expr_term. destruct (t_typ t); try discriminate; intros _ X; discriminate X. Qed.
 
-Lemma expr_loop_names mt sy rf0 e : forall f t' rest L C cur lines acc refs,
+Lemma expr_loop_names en mt sy rf0 e : forall f t' rest L C cur lines acc refs,
   Forall term_tok e -> tok_is_expr_term t' = false -> (length e < f)%nat ->
-  expr_loop f (pq mt sy rf0 (e ++ t' :: rest) L C cur lines) acc refs =
-  (pq mt sy rf0 (t' :: rest) L C cur lines, acc ++ e, add_refs refs e).
+  expr_loop f (pqg en mt sy rf0 (e ++ t' :: rest) L C cur lines) acc refs =
+  (pqg en mt sy rf0 (t' :: rest) L C cur lines, acc ++ e, add_refs refs e).
 Proof.
   induction e as [|t e IH]; intros f t' rest L C cur lines acc refs He Ht' Hf.
-  - destruct f as [|f]; [lia|]. cbn [app expr_loop pq p_nt]. rewrite Ht'. rewrite app_nil_r. reflexivity.
+  - destruct f as [|f]; [lia|]. cbn [app expr_loop pqg p_nt]. rewrite Ht'. rewrite app_nil_r. reflexivity.
   - destruct f as [|f]; [cbn in Hf; lia|]. inversion He as [|x y H1 Hy]; subst.
     cbn [app]. cbn [expr_loop].
-    replace (p_nt (pq mt sy rf0 (t :: e ++ t' :: rest) L C cur lines)) with t by reflexivity.
+    replace (p_nt (pqg en mt sy rf0 (t :: e ++ t' :: rest) L C cur lines)) with t by reflexivity.
     unfold term_tok in H1. rewrite H1.
-    assert (Hn : pnext (pq mt sy rf0 (t :: e ++ t' :: rest) L C cur lines) = pq mt sy rf0 (e ++ t' :: rest) L C cur lines).
+    assert (Hn : pnext (pqg en mt sy rf0 (t :: e ++ t' :: rest) L C cur lines) = pqg en mt sy rf0 (e ++ t' :: rest) L C cur lines).
     { pose proof (term_not_newline t H1) as Hnl. destruct e as [|t2 e2]; cbn [app]; apply pnext_pq_nn; exact Hnl. }
     rewrite Hn.
     change (match t_typ t with tokText => if mem_text (t_val t) refs then refs else refs ++ [t_val t] | _ => refs end) with (add_ref refs t).
@@ -70,7 +72,7 @@ Qed.
 Lemma q_line_text mt sy rf t r L C cur lines :
   t_typ t = tokText ->
   parse_step PLine (pq mt sy rf (t :: r) L C cur lines) = (pq mt sy rf (t :: r) L C (empty_sline L) lines, Some PLabels).
-Proof. intros H. cbn [parse_step pq p_end p_nt]. rewrite H. reflexivity. Qed.
+Proof. intros H. cbn [parse_step pqg p_end p_nt]. rewrite H. reflexivity. Qed.
 
 Lemma q_line_eof mt sy rf L C cur lines :
   parse_step PLine (pq mt sy rf [tEOF] L C cur lines) = (pq mt sy rf [tEOF] L C (empty_sline L) lines, None).
@@ -92,7 +94,7 @@ Lemma empty_go_run mt sy rf k : forall f t' rest L C cur lines, (k < f)%nat -> t
   (pq mt sy rf (t' :: rest) L' C cur' (lines ++ [cur']), Some PLine).
 Proof.
   induction k as [|k IH]; intros f t' rest L C cur lines Hf Ht.
-  - destruct f as [|f]; [lia|]. exists L, cur. split; [reflexivity|]. cbn [repeat app empty_go pq p_nt].
+  - destruct f as [|f]; [lia|]. exists L, cur. split; [reflexivity|]. cbn [repeat app empty_go pqg p_nt].
     destruct (t_typ t'); try reflexivity. congruence.
   - destruct f as [|f]; [lia|]. cbn [repeat app empty_go].
     replace (t_typ (p_nt (pq mt sy rf (nl_tok :: repeat nl_tok k ++ t' :: rest) L C cur lines))) with tokNewline by reflexivity.
@@ -109,7 +111,7 @@ Lemma q_empty mt sy rf k t' rest L C cur lines : t_typ t' <> tokNewline ->
   (pq mt sy rf (t' :: rest) L' C cur' (lines ++ [cur']), Some PLine).
 Proof.
   intros Ht. rewrite step_empty. apply empty_go_run; [|exact Ht].
-  destruct k; cbn [repeat app pq p_toks length]; [lia|]. rewrite app_length, repeat_length. cbn [length]. lia.
+  destruct k; cbn [repeat app pqg p_toks length]; [lia|]. rewrite app_length, repeat_length. cbn [length]. lia.
 Qed.
 
 (* ---------- the label section of a line ---------- *)
@@ -131,6 +133,11 @@ Lemma add_labels_app c a b : add_labels (add_labels c a) b = add_labels c (a ++ 
 Proof. unfold add_labels. cbn. rewrite app_assoc. reflexivity. Qed.
 
 Definition op_tok (o : token) : Prop := t_typ o = tokText /\ tok_is_op o = true /\ tok_is_pseudo o = false.
+(* a mnemonic or a pseudo-op, and the state that reads it *)
+Definition kw_tok (o : token) : Prop := t_typ o = tokText /\ tok_is_op o = true.
+Definition op_state (o : token) : pstate := if tok_is_pseudo o then PPseudoOp else POp.
+Lemma op_tok_kw o : op_tok o -> kw_tok o /\ op_state o = POp.
+Proof. intros [H1 [H2 H3]]. unfold kw_tok, op_state. rewrite H3. auto. Qed.
 Definition label_name (n : text) : Prop := tok_is_op (mkT tokText n) = false.
 
 Lemma colon_go_skip mt sy rf o r C cur lines : forall ls f L, t_typ o <> tokColon -> (length ls < f)%nat ->
@@ -150,9 +157,9 @@ Proof.
     + cbn [drop_colons]. apply colon_go_other. cbn. discriminate.
 Qed.
 
-Lemma q_labels_op mt sy rf o r L C cur lines : op_tok o ->
-  parse_step PLabels (pq mt sy rf (o :: r) L C cur lines) = (pq mt sy rf (o :: r) L C cur lines, Some POp).
-Proof. intros [H1 [H2 H3]]. cbn [parse_step pq p_nt]. rewrite H1, H2, H3. reflexivity. Qed.
+Lemma q_labels_op mt sy rf o r L C cur lines : kw_tok o ->
+  parse_step PLabels (pq mt sy rf (o :: r) L C cur lines) = (pq mt sy rf (o :: r) L C cur lines, Some (op_state o)).
+Proof. intros [H1 H2]. cbn [parse_step pqg p_nt]. rewrite H1, H2. reflexivity. Qed.
 
 Lemma q_labels_nl mt sy rf t2 r L C cur lines :
   parse_step PLabels (pq mt sy rf (nl_tok :: t2 :: r) L C cur lines) = (pq mt sy rf (t2 :: r) (L + 1)%Z C cur lines, Some PLabels).
@@ -166,13 +173,13 @@ Lemma q_labels_name mt sy rf n t2 r L C cur lines : label_name n -> mem_text n s
   parse_step PLabels (pq mt sy rf (mkT tokText n :: t2 :: r) L C cur lines) =
   (pq mt (sy ++ [n]) rf (t2 :: r) L C (add_labels cur [n]) lines, Some PLabels).
 Proof.
-  intros H1 H2. cbn [parse_step pq p_nt t_typ]. unfold label_name in H1. rewrite H1. cbv zeta. cbn [p_syms t_val]. rewrite H2. reflexivity.
+  intros H1 H2. cbn [parse_step pqg p_nt t_typ]. unfold label_name in H1. rewrite H1. cbv zeta. cbn [p_syms t_val]. rewrite H2. reflexivity.
 Qed.
 
-Lemma q_colon mt sy rf ls o r L C cur lines : op_tok o ->
+Lemma q_colon mt sy rf ls o r L C cur lines : kw_tok o ->
   parse_step Parser.PColon (pq mt sy rf (map ltok_tok ls ++ o :: r) L C cur lines) =
   match drop_colons ls with
-  | [] => (pq mt sy rf (o :: r) L C cur lines, Some POp)
+  | [] => (pq mt sy rf (o :: r) L C cur lines, Some (op_state o))
   | LNl :: t => (pq mt sy rf (map ltok_tok t ++ o :: r) (L + 1)%Z C cur lines, Some Parser.PColon)
   | LName n :: t => if tok_is_op (mkT tokText n) then
                       (pq mt sy rf (map ltok_tok (LName n :: t) ++ o :: r) L C cur lines,
@@ -181,27 +188,27 @@ Lemma q_colon mt sy rf ls o r L C cur lines : op_tok o ->
   | LColon :: t => (pq mt sy rf (map ltok_tok ls ++ o :: r) L C cur lines, None)
   end.
 Proof.
-  intros [H1 [H2 H3]]. rewrite step_colon. cbv zeta.
+  intros [H1 H2]. rewrite step_colon. cbv zeta.
   rewrite colon_go_skip.
   - destruct (drop_colons ls) as [|[n| |] t] eqn:E.
-    + cbn [map app pq p_nt]. rewrite H1, H2, H3. reflexivity.
-    + cbn [map app ltok_tok pq p_nt t_typ]. destruct (tok_is_op (mkT tokText n)); reflexivity.
+    + cbn [map app pqg p_nt]. rewrite H1, H2. reflexivity.
+    + cbn [map app ltok_tok pqg p_nt t_typ]. destruct (tok_is_op (mkT tokText n)); reflexivity.
     + exfalso. clear - E. induction ls as [|[n| |] ls IH]; cbn [drop_colons] in E; try discriminate. apply IH. exact E.
     + cbn [map app ltok_tok]. replace (t_typ (p_nt (pq mt sy rf (nl_tok :: map ltok_tok t ++ o :: r) L C cur lines))) with tokNewline by reflexivity.
       f_equal. destruct t; reflexivity.
   - rewrite H1. discriminate.
-  - destruct ls as [|x ls']; cbn [map app pq p_toks length]; [lia|]. rewrite app_length, map_length. cbn [length]. lia.
+  - destruct ls as [|x ls']; cbn [map app pqg p_toks length]; [lia|]. rewrite app_length, map_length. cbn [length]. lia.
 Qed.
 
 (* the whole label section, from either of its two states, ends in front of the mnemonic *)
-Lemma lab_phase mt rf o r C lines : op_tok o ->
+Lemma lab_phase mt rf o r C lines : kw_tok o ->
   forall k ls, (length ls <= k)%nat -> Forall label_name (lnames ls) ->
   forall sy, NoDup (sy ++ lnames ls) ->
   forall L cur,
   (exists n L', forall f, parse_run (n + f) PLabels (pq mt sy rf (map ltok_tok ls ++ o :: r) L C cur lines) =
-                          parse_run f POp (pq mt (sy ++ lnames ls) rf (o :: r) L' C (add_labels cur (lnames ls)) lines)) /\
+                          parse_run f (op_state o) (pq mt (sy ++ lnames ls) rf (o :: r) L' C (add_labels cur (lnames ls)) lines)) /\
   (exists n L', forall f, parse_run (n + f) Parser.PColon (pq mt sy rf (map ltok_tok ls ++ o :: r) L C cur lines) =
-                          parse_run f POp (pq mt (sy ++ lnames ls) rf (o :: r) L' C (add_labels cur (lnames ls)) lines)).
+                          parse_run f (op_state o) (pq mt (sy ++ lnames ls) rf (o :: r) L' C (add_labels cur (lnames ls)) lines)).
 Proof.
   intros Ho. induction k as [|k IH]; intros ls Hk Hnm sy Hnd L cur.
   - destruct ls; [|cbn in Hk; lia]. cbn [map app lnames flat_map]. rewrite app_nil_r, add_labels_nil. split.
@@ -212,7 +219,7 @@ Proof.
     assert (FromLabels : forall ls', (length ls' <= S k)%nat -> Forall label_name (lnames ls') -> forall sy', NoDup (sy' ++ lnames ls') ->
               forall L0 cur0, (match ls' with LColon :: _ => False | _ => True end) ->
               exists n L', forall f, parse_run (n + f) PLabels (pq mt sy' rf (map ltok_tok ls' ++ o :: r) L0 C cur0 lines) =
-                          parse_run f POp (pq mt (sy' ++ lnames ls') rf (o :: r) L' C (add_labels cur0 (lnames ls')) lines)).
+                          parse_run f (op_state o) (pq mt (sy' ++ lnames ls') rf (o :: r) L' C (add_labels cur0 (lnames ls')) lines)).
     { intros ls' Hk' Hnm' sy' Hnd' L0 cur0 Hhd. destruct ls' as [|[n| |] t].
       - cbn [map app lnames flat_map]. rewrite app_nil_r, add_labels_nil.
         exists 1%nat, L0. intros f. cbn [Nat.add]. rewrite parse_run_S, q_labels_op by exact Ho. reflexivity.
@@ -239,7 +246,7 @@ Proof.
     assert (FromColon : forall ls', (length ls' <= S k)%nat -> Forall label_name (lnames ls') -> forall sy', NoDup (sy' ++ lnames ls') ->
               forall L0 cur0,
               exists n L', forall f, parse_run (n + f) Parser.PColon (pq mt sy' rf (map ltok_tok ls' ++ o :: r) L0 C cur0 lines) =
-                          parse_run f POp (pq mt (sy' ++ lnames ls') rf (o :: r) L' C (add_labels cur0 (lnames ls')) lines)).
+                          parse_run f (op_state o) (pq mt (sy' ++ lnames ls') rf (o :: r) L' C (add_labels cur0 (lnames ls')) lines)).
     { intros ls' Hk' Hnm' sy' Hnd' L0 cur0.
       pose proof (q_colon mt sy' rf ls' o r L0 C cur0 lines Ho) as Q.
       pose proof (drop_colons_len ls') as Hdl. pose proof (drop_colons_names ls') as Hdn.
@@ -274,7 +281,7 @@ Proof.
   match goal with |- context [pnext ?q] =>
     replace (pnext q) with (pq mt sy rf (t2 :: r) L (C + 1)%Z (set_op cur C lineInstruction (t_val t)) lines)
       by (cbn; destruct (t_typ t); try reflexivity; congruence) end.
-  cbn [pq p_nt]. rewrite H2. reflexivity.
+  cbn [pqg p_nt]. rewrite H2. reflexivity.
 Qed.
 Lemma q_op_expr mt sy rf t t2 r L C cur lines :
   t_typ t <> tokNewline -> tok_is_amode t2 = false -> tok_is_expr_term t2 = true -> val_is t2 42 = false ->
@@ -285,7 +292,7 @@ Proof.
   match goal with |- context [pnext ?q] =>
     replace (pnext q) with (pq mt sy rf (t2 :: r) L (C + 1)%Z (set_op cur C lineInstruction (t_val t)) lines)
       by (cbn; destruct (t_typ t); try reflexivity; congruence) end.
-  cbn [pq p_nt]. rewrite H2, H3, H4. reflexivity.
+  cbn [pqg p_nt]. rewrite H2, H3, H4. reflexivity.
 Qed.
 Lemma q_mode_a mt sy rf t t2 r L C cur lines :
   t_typ t <> tokNewline -> tok_is_expr_term t2 = true ->
@@ -296,7 +303,7 @@ Proof.
   match goal with |- context [pnext ?q] =>
     replace (pnext q) with (pq mt sy rf (t2 :: r) L C (set_amode cur (t_val t)) lines)
       by (cbn; destruct (t_typ t); try reflexivity; congruence) end.
-  cbn [pq p_nt]. rewrite H2. reflexivity.
+  cbn [pqg p_nt]. rewrite H2. reflexivity.
 Qed.
 Lemma q_mode_b mt sy rf t t2 r L C cur lines :
   t_typ t <> tokNewline -> tok_is_expr_term t2 = true ->
@@ -307,20 +314,20 @@ Proof.
   match goal with |- context [pnext ?q] =>
     replace (pnext q) with (pq mt sy rf (t2 :: r) L C (set_bmode cur (t_val t)) lines)
       by (cbn; destruct (t_typ t); try reflexivity; congruence) end.
-  cbn [pq p_nt]. rewrite H2. reflexivity.
+  cbn [pqg p_nt]. rewrite H2. reflexivity.
 Qed.
 Lemma q_comma_mode mt sy rf t2 r L C cur lines :
   tok_is_amode t2 = true ->
   parse_step Parser.PComma (pq mt sy rf (mkT tokComma [44] :: t2 :: r) L C cur lines) = (pq mt sy rf (t2 :: r) L C cur lines, Some PModeB).
-Proof. intros H. cbn [parse_step]. rewrite pnext_pq. cbn [t_typ pq p_nt]. rewrite H. reflexivity. Qed.
+Proof. intros H. cbn [parse_step]. rewrite pnext_pq. cbn [t_typ pqg p_nt]. rewrite H. reflexivity. Qed.
 Lemma q_comma_expr mt sy rf t2 r L C cur lines :
   tok_is_amode t2 = false -> tok_is_expr_term t2 = true ->
   parse_step Parser.PComma (pq mt sy rf (mkT tokComma [44] :: t2 :: r) L C cur lines) = (pq mt sy rf (t2 :: r) L C cur lines, Some PExprB).
-Proof. intros H H'. cbn [parse_step]. rewrite pnext_pq. cbn [t_typ pq p_nt]. rewrite H, H'. reflexivity. Qed.
+Proof. intros H H'. cbn [parse_step]. rewrite pnext_pq. cbn [t_typ pqg p_nt]. rewrite H, H'. reflexivity. Qed.
 
-Lemma loop_fuel mt sy rf (e : list token) t' r L C cur lines :
-  (length e < S (S (length (p_toks (pq mt sy rf (e ++ t' :: r) L C cur lines)))))%nat.
-Proof. destruct e as [|t0 e0]; cbn [app pq p_toks length]; [lia|]. rewrite app_length. cbn [length]. lia. Qed.
+Lemma loop_fuel en mt sy rf (e : list token) t' r L C cur lines :
+  (length e < S (S (length (p_toks (pqg en mt sy rf (e ++ t' :: r) L C cur lines)))))%nat.
+Proof. destruct e as [|t0 e0]; cbn [app pqg p_toks length]; [lia|]. rewrite app_length. cbn [length]. lia. Qed.
 
 (* the A expression, by what follows it *)
 Lemma q_expr_a mt sy rf e t' r L C cur lines :
@@ -336,8 +343,8 @@ Proof.
   intros He Ha Ht. cbn [parse_step].
   replace (p_refs (pq mt sy rf (e ++ t' :: r) L C cur lines)) with rf by (destruct e; reflexivity).
   replace (sl_a (p_cur (pq mt sy rf (e ++ t' :: r) L C cur lines))) with (@nil token) by (destruct e; cbn; congruence).
-  rewrite (expr_loop_names mt sy rf e _ t' r L C cur lines [] rf He Ht (loop_fuel mt sy rf e t' r L C cur lines)).
-  cbn [app]. cbn [pq p_set_refs cur_set p_set_cur p_cur p_nt p_toks p_eof p_line p_codeline p_err p_meta p_end p_lines p_syms].
+  rewrite (expr_loop_names false mt sy rf e _ t' r L C cur lines [] rf He Ht (loop_fuel false mt sy rf e t' r L C cur lines)).
+  cbn [app]. cbn [pqg p_set_refs cur_set p_set_cur p_cur p_nt p_toks p_eof p_line p_codeline p_err p_meta p_end p_lines p_syms].
   destruct (t_typ t'); reflexivity.
 Qed.
 Lemma q_expr_b mt sy rf e t' r L C cur lines :
@@ -353,21 +360,97 @@ Proof.
   intros He Hb Ht. cbn [parse_step].
   replace (p_refs (pq mt sy rf (e ++ t' :: r) L C cur lines)) with rf by (destruct e; reflexivity).
   replace (sl_b (p_cur (pq mt sy rf (e ++ t' :: r) L C cur lines))) with (@nil token) by (destruct e; cbn; congruence).
-  rewrite (expr_loop_names mt sy rf e _ t' r L C cur lines [] rf He Ht (loop_fuel mt sy rf e t' r L C cur lines)).
-  cbn [app]. cbn [pq p_set_refs cur_set p_set_cur p_cur p_nt p_toks p_eof p_line p_codeline p_err p_meta p_end p_lines p_syms].
+  rewrite (expr_loop_names false mt sy rf e _ t' r L C cur lines [] rf He Ht (loop_fuel false mt sy rf e t' r L C cur lines)).
+  cbn [app]. cbn [pqg p_set_refs cur_set p_set_cur p_cur p_nt p_toks p_eof p_line p_codeline p_err p_meta p_end p_lines p_syms].
   destruct (t_typ t'); reflexivity.
 Qed.
 
 Definition set_comment (c : sline) (cm : text) : sline :=
   mkSL (sl_line c) (sl_codeline c) (sl_typ c) (sl_labels c) (sl_op c) (sl_amode c) (sl_a c) (sl_bmode c) (sl_b c) cm (sl_newlines c).
-Lemma q_comment_nl mt sy rf c t' rest L C cur lines :
-  parse_step Parser.PComment (pq mt sy rf (mkT tokComment c :: nl_tok :: t' :: rest) L C cur lines) =
-  (pq mt sy rf (t' :: rest) (L + 1)%Z C (add_newline (set_comment cur c)) (lines ++ [add_newline (set_comment cur c)]), Some PLine).
+Lemma q_comment_nl_g en mt sy rf c t' rest L C cur lines :
+  parse_step Parser.PComment (pqg en mt sy rf (mkT tokComment c :: nl_tok :: t' :: rest) L C cur lines) =
+  (pqg en mt sy rf (t' :: rest) (L + 1)%Z C (add_newline (set_comment cur c)) (lines ++ [add_newline (set_comment cur c)]), Some PLine).
 Proof. reflexivity. Qed.
-Lemma q_comment_eof mt sy rf c L C cur lines :
-  parse_step Parser.PComment (pq mt sy rf [mkT tokComment c; tEOF] L C cur lines) =
-  (pq mt sy rf [tEOF] L C (set_comment cur c) (lines ++ [set_comment cur c]), None).
+Lemma q_comment_eof_g en mt sy rf c L C cur lines :
+  parse_step Parser.PComment (pqg en mt sy rf [mkT tokComment c; tEOF] L C cur lines) =
+  (pqg en mt sy rf [tEOF] L C (set_comment cur c) (lines ++ [set_comment cur c]), None).
 Proof. reflexivity. Qed.
+Definition q_comment_nl := q_comment_nl_g false.
+Definition q_comment_eof := q_comment_eof_g false.
+
+(* ---------- pseudo-op lines: a keyword, then an expression or nothing ---------- *)
+Definition is_end (t : token) : bool := lower_is (t_val t) "end".
+Definition after_kw (cur : sline) (t : token) : sline := set_op cur (sl_codeline cur) linePseudoOp (t_val t).
+
+Lemma q_pseudo_op_expr en mt sy rf t t2 r L C cur lines :
+  t_typ t <> tokNewline -> tok_is_expr_term t2 = true ->
+  parse_step PPseudoOp (pqg en mt sy rf (t :: t2 :: r) L C cur lines) =
+  (pqg (en || is_end t) mt sy rf (t2 :: r) L C (after_kw cur t) lines, Some PPseudoExpr).
+Proof.
+  intros H1 H2. cbn [parse_step]. cbv zeta.
+  match goal with |- context [pnext ?q] =>
+    replace (pnext q) with (pqg (en || is_end t) mt sy rf (t2 :: r) L C (after_kw cur t) lines)
+      by (cbn; destruct (t_typ t); try reflexivity; congruence) end.
+  cbn [pqg p_nt]. rewrite H2. reflexivity.
+Qed.
+Lemma q_pseudo_op_comment en mt sy rf t c r L C cur lines :
+  t_typ t <> tokNewline ->
+  parse_step PPseudoOp (pqg en mt sy rf (t :: mkT tokComment c :: r) L C cur lines) =
+  (pqg (en || is_end t) mt sy rf (mkT tokComment c :: r) L C (after_kw cur t) lines, Some Parser.PComment).
+Proof.
+  intros H1. cbn [parse_step]. cbv zeta.
+  match goal with |- context [pnext ?q] =>
+    replace (pnext q) with (pqg (en || is_end t) mt sy rf (mkT tokComment c :: r) L C (after_kw cur t) lines)
+      by (cbn; destruct (t_typ t); try reflexivity; congruence) end.
+  reflexivity.
+Qed.
+(* nothing follows the keyword: accepted for END only *)
+Lemma q_pseudo_op_nl en mt sy rf t t3 r L C cur lines :
+  t_typ t <> tokNewline -> tok_no_operands_ok t = true ->
+  parse_step PPseudoOp (pqg en mt sy rf (t :: nl_tok :: t3 :: r) L C cur lines) =
+  (pqg (en || is_end t) mt sy rf (t3 :: r) (L + 1)%Z C (add_newline (after_kw cur t)) (lines ++ [add_newline (after_kw cur t)]), Some PLine).
+Proof.
+  intros H1 H2. cbn [parse_step]. cbv zeta.
+  match goal with |- context [pnext ?q] =>
+    replace (pnext q) with (pqg (en || is_end t) mt sy rf (nl_tok :: t3 :: r) L C (after_kw cur t) lines)
+      by (cbn; destruct (t_typ t); try reflexivity; congruence) end.
+  cbn [pqg p_nt nl_tok t_typ tok_is_expr_term]. rewrite H2. reflexivity.
+Qed.
+Lemma q_pseudo_op_eof en mt sy rf t L C cur lines :
+  t_typ t <> tokNewline -> tok_no_operands_ok t = true ->
+  exists pf, parse_step PPseudoOp (pqg en mt sy rf [t; tEOF] L C cur lines) = (pf, None) /\
+    p_err pf = false /\ p_syms pf = sy /\ p_refs pf = rf /\ p_meta pf = mt /\
+    p_lines pf = lines ++ [add_newline (after_kw cur t)].
+Proof.
+  intros H1 H2. cbn [parse_step]. cbv zeta.
+  match goal with |- context [pnext ?q] =>
+    replace (pnext q) with (pqg (en || is_end t) mt sy rf [tEOF] L C (after_kw cur t) lines)
+      by (cbn; destruct (t_typ t); try reflexivity; congruence) end.
+  cbn [pqg p_nt tEOF t_typ tok_is_expr_term]. rewrite H2. eexists. split; [reflexivity|]. repeat split.
+Qed.
+
+(* the expression of a pseudo-op, by what follows it *)
+Lemma q_pseudo_expr en mt sy rf e t' r L C cur lines :
+  Forall term_tok e -> sl_a cur = [] -> tok_is_expr_term t' = false ->
+  parse_step PPseudoExpr (pqg en mt sy rf (e ++ t' :: r) L C cur lines) =
+  match t_typ t' with
+  | tokComment => (pqg en mt sy (add_refs rf e) (t' :: r) L C (set_a cur e) lines, Some Parser.PComment)
+  | tokNewline => (p_push_line (cur_newline (pnext (pqg en mt sy (add_refs rf e) (t' :: r) L C (set_a cur e) lines))), Some PLine)
+  | tokEOF => (pqg en mt sy (add_refs rf e) (t' :: r) L C (set_a cur e) (lines ++ [set_a cur e]), Some PLine)
+  | _ => (p_fail (pqg en mt sy (add_refs rf e) (t' :: r) L C (set_a cur e) lines), None)
+  end.
+Proof.
+  intros He Ha Ht. cbn [parse_step].
+  replace (p_refs (pqg en mt sy rf (e ++ t' :: r) L C cur lines)) with rf by (destruct e; reflexivity).
+  replace (sl_a (p_cur (pqg en mt sy rf (e ++ t' :: r) L C cur lines))) with (@nil token) by (destruct e; cbn; congruence).
+  rewrite (expr_loop_names en mt sy rf e _ t' r L C cur lines [] rf He Ht (loop_fuel en mt sy rf e t' r L C cur lines)).
+  cbn [app]. cbn [pqg p_set_refs cur_set p_set_cur p_cur p_nt p_toks p_eof p_line p_codeline p_err p_meta p_end p_lines p_syms].
+  destruct (t_typ t'); reflexivity.
+Qed.
+
+Lemma q_line_ended mt sy rf l L C cur lines :
+  parse_step PLine (pqg true mt sy rf l L C cur lines) = (pqg true mt sy rf l L C cur lines, None).
+Proof. destruct l; reflexivity. Qed.
 
 (* ---------- instruction lines ---------- *)
 Record tline := mkTL { tl_labs : list ltok; tl_op : text; tl_am : option N; tl_A : list token;
@@ -439,8 +522,10 @@ Proof.
   { unfold tline_head, after_op. rewrite <- !app_assoc. cbn [app]. rewrite <- !app_assoc. reflexivity. }
   rewrite Etoks. clear Etoks.
   (* the label section *)
-  destruct (lab_phase mt rf o (after_op ++ tline_last i ++ t' :: r) C lines Hop (length (tl_labs i)) (tl_labs i) (le_n _) Hnm sy Hnd
+  destruct (op_tok_kw o Hop) as [Hkw Hst].
+  destruct (lab_phase mt rf o (after_op ++ tline_last i ++ t' :: r) C lines Hkw (length (tl_labs i)) (tl_labs i) (le_n _) Hnm sy Hnd
               L (empty_sline L)) as [[n1 [L1 H1]] _].
+  rewrite Hst in H1.
   assert (Hstart : forall f, parse_run (S (n1 + f)) PLine (pq mt sy rf (map ltok_tok (tl_labs i) ++ o :: (after_op ++ tline_last i ++ t' :: r)) L C cur lines) =
                    parse_run f POp (pq mt (sy ++ lnames (tl_labs i)) rf (o :: (after_op ++ tline_last i ++ t' :: r)) L1 C
                                        (add_labels (empty_sline L) (lnames (tl_labs i))) lines)).
@@ -610,13 +695,13 @@ Proof.
       * intros f. replace (n1 + 2 + f)%nat with (n1 + S (S f))%nat by lia. rewrite H1.
         rewrite parse_run_S. rewrite q_expr_b by (try assumption; reflexivity). cbn [t_typ].
         rewrite parse_run_S, q_comment_eof. reflexivity.
-      * unfold finished. cbn [pq p_err p_syms p_refs p_lines p_meta]. repeat split.
+      * unfold finished. cbn [pqg p_err p_syms p_refs p_lines p_meta]. repeat split.
         rewrite essential_line; [f_equal; f_equal|]; unfold fin_cur, set_last in CF1, CF2; rewrite EB, Ec in CF1, CF2; assumption.
     + eexists (n1 + 2)%nat, _. split.
       * intros f. replace (n1 + 2 + f)%nat with (n1 + S (S f))%nat by lia. rewrite H1.
         rewrite parse_run_S. rewrite q_expr_a by (try assumption; reflexivity). cbn [t_typ].
         rewrite parse_run_S, q_comment_eof. reflexivity.
-      * unfold finished. cbn [pq p_err p_syms p_refs p_lines p_meta]. repeat split.
+      * unfold finished. cbn [pqg p_err p_syms p_refs p_lines p_meta]. repeat split.
         rewrite essential_line; [f_equal; f_equal|]; unfold fin_cur, set_last in CF1, CF2; rewrite EB, Ec in CF1, CF2; assumption.
   - destruct (tline_prefix mt sy rf i tEOF [] L C cur lines Hok Hnd) as [n1 [L1 H1]].
     unfold tline_state, refs_after, refs_mid, tline_last in *.
@@ -625,13 +710,13 @@ Proof.
       * intros f. replace (n1 + 2 + f)%nat with (n1 + S (S f))%nat by lia. rewrite H1.
         rewrite parse_run_S. rewrite q_expr_b by (try assumption; reflexivity). cbn [t_typ tEOF].
         rewrite parse_run_S, q_line_eof. reflexivity.
-      * unfold finished. cbn [pq p_err p_syms p_refs p_lines p_meta]. repeat split.
+      * unfold finished. cbn [pqg p_err p_syms p_refs p_lines p_meta]. repeat split.
         rewrite essential_line; [f_equal; f_equal|]; unfold fin_cur, set_last in CF1, CF2; rewrite EB, Ec in CF1, CF2; assumption.
     + eexists (n1 + 2)%nat, _. split.
       * intros f. replace (n1 + 2 + f)%nat with (n1 + S (S f))%nat by lia. rewrite H1.
         rewrite parse_run_S. rewrite q_expr_a by (try assumption; reflexivity). cbn [t_typ tEOF].
         rewrite parse_run_S, q_line_eof. reflexivity.
-      * unfold finished. cbn [pq p_err p_syms p_refs p_lines p_meta]. repeat split.
+      * unfold finished. cbn [pqg p_err p_syms p_refs p_lines p_meta]. repeat split.
         rewrite essential_line; [f_equal; f_equal|]; unfold fin_cur, set_last in CF1, CF2; rewrite EB, Ec in CF1, CF2; assumption.
 Qed.
 
@@ -659,13 +744,85 @@ Lemma comment_run_last mt sy rf c L C cur lines :
 Proof.
   eexists 2%nat, _. split.
   - intros f. cbn [Nat.add]. rewrite parse_run_S, q_line_comment. rewrite parse_run_S, q_comment_eof. reflexivity.
-  - unfold finished. cbn [pq p_err p_syms p_refs p_lines p_meta]. repeat split. rewrite essential_line by reflexivity. reflexivity.
+  - unfold finished. cbn [pqg p_err p_syms p_refs p_lines p_meta]. repeat split. rewrite essential_line by reflexivity. reflexivity.
+Qed.
+
+(* ---------- pseudo-op lines that are not END: ORG and the like ---------- *)
+Definition dir_sline (kw : text) (e : list token) (cmt : option text) : sline :=
+  mkSL 0 0 linePseudoOp [] kw [] e [] [] (match cmt with Some c => c | None => [] end) 0.
+Definition dir_ok (kw : text) (e : list token) : Prop :=
+  kw_tok (mkT tokText kw) /\ tok_is_pseudo (mkT tokText kw) = true /\ lower_is kw "end" = false /\
+  Forall term_tok e /\ e <> [].
+
+Lemma dir_prefix mt sy rf kw e t' r L C cur lines : dir_ok kw e -> forall f,
+  parse_run (3 + f) PLine (pq mt sy rf (mkT tokText kw :: e ++ t' :: r) L C cur lines) =
+  parse_run f PPseudoExpr (pq mt sy rf (e ++ t' :: r) L C (after_kw (empty_sline L) (mkT tokText kw)) lines).
+Proof.
+  intros [Hkw [Hps [Hend [He Hne]]]] f. change (3 + f)%nat with (S (S (S f))).
+  rewrite parse_run_S, q_line_text by reflexivity.
+  rewrite parse_run_S, q_labels_op by exact Hkw. unfold op_state. rewrite Hps.
+  destruct e as [|e0 e']; [congruence|]. inversion He as [|x y He0 _]; subst. cbn [app].
+  rewrite parse_run_S, q_pseudo_op_expr by (try discriminate; exact He0).
+  unfold is_end. cbn [t_val orb]. rewrite Hend. reflexivity.
+Qed.
+
+Lemma dir_run_more mt sy rf kw e cmt k t0 r0 L C cur lines : dir_ok kw e -> t_typ t0 <> tokNewline ->
+  exists n L' cur' lines',
+    (forall f, parse_run (n + f) PLine (pq mt sy rf (mkT tokText kw :: e ++ cmt_toks cmt ++ repeat nl_tok (S k) ++ t0 :: r0) L C cur lines) =
+               parse_run f PLine (pq mt sy (add_refs rf e) (t0 :: r0) L' C cur' lines')) /\
+    essential lines' = essential lines ++ [dir_sline kw e cmt].
+Proof.
+  intros Hok Ht0. pose proof Hok as [_ [_ [_ [He _]]]].
+  set (c0 := set_a (after_kw (empty_sline L) (mkT tokText kw)) e).
+  destruct cmt as [c|]; cbn [cmt_toks app].
+  - destruct (skip_nls mt sy (add_refs rf e) k t0 r0 (L + 1)%Z C (add_newline (set_comment c0 c)) (lines ++ [add_newline (set_comment c0 c)]) Ht0)
+      as [n2 [L2 [cur2 [lines2 [H2 E2]]]]].
+    exists (3 + (2 + n2))%nat, L2, cur2, lines2. split.
+    + intros f. replace (3 + (2 + n2) + f)%nat with (3 + S (S (n2 + f)))%nat by lia.
+      rewrite (dir_prefix mt sy rf kw e (mkT tokComment c) _ L C cur lines Hok).
+      rewrite parse_run_S, q_pseudo_expr by (try assumption; reflexivity). cbn [t_typ].
+      rewrite parse_run_S. cbn [repeat app].
+      destruct (repeat nl_tok k ++ t0 :: r0) as [|x y] eqn:Er; [destruct k; discriminate Er|].
+      rewrite q_comment_nl. apply H2.
+    + rewrite E2. rewrite essential_line by reflexivity. reflexivity.
+  - destruct (skip_nls mt sy (add_refs rf e) k t0 r0 (L + 1)%Z C (add_newline c0) (lines ++ [add_newline c0]) Ht0)
+      as [n2 [L2 [cur2 [lines2 [H2 E2]]]]].
+    exists (3 + (1 + n2))%nat, L2, cur2, lines2. split.
+    + intros f. replace (3 + (1 + n2) + f)%nat with (3 + S (n2 + f))%nat by lia. cbn [repeat app].
+      rewrite (dir_prefix mt sy rf kw e nl_tok _ L C cur lines Hok).
+      rewrite parse_run_S, q_pseudo_expr by (try assumption; reflexivity). cbn [t_typ nl_tok].
+      destruct (repeat nl_tok k ++ t0 :: r0) as [|x y] eqn:Er; [destruct k; discriminate Er|].
+      rewrite pnext_pq. cbn [t_typ]. apply H2.
+    + rewrite E2. rewrite essential_line by reflexivity. reflexivity.
+Qed.
+
+Lemma dir_run_last mt sy rf kw e cmt L C cur lines : dir_ok kw e ->
+  exists n pf,
+    (forall f, parse_run (n + f) PLine (pq mt sy rf (mkT tokText kw :: e ++ cmt_toks cmt ++ [tEOF]) L C cur lines) = Some pf) /\
+    finished pf sy (add_refs rf e) (essential lines ++ [dir_sline kw e cmt]) mt.
+Proof.
+  intros Hok. pose proof Hok as [_ [_ [_ [He _]]]].
+  destruct cmt as [c|]; cbn [cmt_toks app].
+  - eexists (3 + 2)%nat, _. split.
+    + intros f. rewrite <- Nat.add_assoc. rewrite (dir_prefix mt sy rf kw e (mkT tokComment c) _ L C cur lines Hok).
+      cbn [Nat.add]. rewrite parse_run_S, q_pseudo_expr by (try assumption; reflexivity). cbn [t_typ].
+      rewrite parse_run_S, q_comment_eof. reflexivity.
+    + unfold finished. cbn [pqg p_err p_syms p_refs p_lines p_meta]. repeat split. rewrite essential_line by reflexivity. reflexivity.
+  - eexists (3 + 2)%nat, _. split.
+    + intros f. rewrite <- Nat.add_assoc. rewrite (dir_prefix mt sy rf kw e tEOF _ L C cur lines Hok).
+      cbn [Nat.add]. rewrite parse_run_S, q_pseudo_expr by (try assumption; reflexivity). cbn [t_typ tEOF].
+      rewrite parse_run_S, q_line_eof. reflexivity.
+    + unfold finished. cbn [pqg p_err p_syms p_refs p_lines p_meta]. repeat split. rewrite essential_line by reflexivity. reflexivity.
 Qed.
 
 (* ---------- documents: lines, each followed by its line ends ---------- *)
-Inductive lelem := LInstr (i : tline) | LComment (c : text).
+Inductive lelem := LInstr (i : tline) | LComment (c : text) | LDir (kw : text) (e : list token) (cmt : option text).
 Definition lelem_toks (x : lelem) : list token :=
-  match x with LInstr i => tline_toks i | LComment c => [mkT tokComment c] end.
+  match x with
+  | LInstr i => tline_toks i
+  | LComment c => [mkT tokComment c]
+  | LDir kw e cmt => mkT tokText kw :: e ++ cmt_toks cmt
+  end.
 Fixpoint body (es : list (lelem * nat)) : list token :=
   match es with [] => [] | (x, k) :: t => lelem_toks x ++ repeat nl_tok k ++ body t end.
 Definition ldoc_toks (lead : nat) (es : list (lelem * nat)) : list token := repeat nl_tok lead ++ body es ++ [tEOF].
@@ -673,15 +830,23 @@ Definition ldoc_toks (lead : nat) (es : list (lelem * nat)) : list token := repe
 Fixpoint dnames (es : list (lelem * nat)) : list text :=
   match es with [] => [] | (LInstr i, _) :: t => lnames (tl_labs i) ++ dnames t | _ :: t => dnames t end.
 Fixpoint drefs (rf : list text) (es : list (lelem * nat)) : list text :=
-  match es with [] => rf | (LInstr i, _) :: t => drefs (refs_after rf i) t | _ :: t => drefs rf t end.
+  match es with
+  | [] => rf
+  | (LInstr i, _) :: t => drefs (refs_after rf i) t
+  | (LDir _ e _, _) :: t => drefs (add_refs rf e) t
+  | _ :: t => drefs rf t
+  end.
 Fixpoint elines (C : Z) (es : list (lelem * nat)) : list sline :=
   match es with
   | [] => []
   | (LInstr i, _) :: t => tline_sline C i :: elines (C + 1) t
   | (LComment c, _) :: t => comment_sline c :: elines C t
+  | (LDir kw e cmt, _) :: t => dir_sline kw e cmt :: elines C t
   end.
 Fixpoint dmeta (mt : pmeta) (es : list (lelem * nat)) : pmeta :=
   match es with [] => mt | (LComment c, _) :: t => dmeta (read_metadata mt c) t | _ :: t => dmeta mt t end.
+Fixpoint dcount (es : list (lelem * nat)) : Z :=
+  match es with [] => 0%Z | (LInstr _, _) :: t => (1 + dcount t)%Z | _ :: t => dcount t end.
 
 (* every line but the last is followed by at least one line end *)
 Fixpoint ends_ok (es : list (lelem * nat)) : Prop :=
@@ -690,7 +855,8 @@ Fixpoint ends_ok (es : list (lelem * nat)) : Prop :=
   | [(_, _)] => True
   | (_, k) :: t => (1 <= k)%nat /\ ends_ok t
   end.
-Definition lelem_ok (x : lelem) : Prop := match x with LInstr i => tline_ok i | LComment _ => True end.
+Definition lelem_ok (x : lelem) : Prop :=
+  match x with LInstr i => tline_ok i | LComment _ => True | LDir kw e _ => dir_ok kw e end.
 
 Lemma tline_toks_head i : tline_ok i -> exists t0 r0, tline_toks i = t0 :: r0 /\ t_typ t0 <> tokNewline.
 Proof.
@@ -701,75 +867,263 @@ Lemma body_head es : Forall (fun xk => lelem_ok (fst xk)) es ->
   exists t0 r0, body es ++ [tEOF] = t0 :: r0 /\ t_typ t0 <> tokNewline.
 Proof.
   intros H. destruct es as [|[x k] t]; [exists tEOF, []; split; [reflexivity|discriminate]|].
-  inversion H as [|a b Hx Ht]; subst. cbn [fst] in Hx. cbn [body]. destruct x as [i|c].
+  inversion H as [|a b Hx Ht]; subst. cbn [fst] in Hx. cbn [body]. destruct x as [i|c|kw e cmt].
   - destruct (tline_toks_head i Hx) as [t0 [r0 [E Hn]]]. cbn [lelem_toks]. rewrite E. cbn [app]. eexists _, _. split; [reflexivity|exact Hn].
+  - cbn [lelem_toks app]. eexists _, _. split; [reflexivity|discriminate].
   - cbn [lelem_toks app]. eexists _, _. split; [reflexivity|discriminate].
 Qed.
 
 Lemma body_cons x k t : body ((x, k) :: t) = lelem_toks x ++ repeat nl_tok k ++ body t.
 Proof. reflexivity. Qed.
 
+Lemma nodup_app_l (A : Type) (l1 l2 : list A) : NoDup (l1 ++ l2) -> NoDup l1.
+Proof.
+  induction l1 as [|a l1 IH]; intros H; [constructor|]. cbn [app] in H. inversion H as [|x y H2 H3]; subst. constructor.
+  - intros Hin. apply H2. apply in_or_app. left. exact Hin.
+  - apply IH. exact H3.
+Qed.
+
+(* the lines of a document, each followed by at least one line end, in front of any further text *)
+Theorem doc_run_more : forall es, Forall (fun xk => lelem_ok (fst xk)) es -> Forall (fun xk => (1 <= snd xk)%nat) es ->
+  forall t0 r0, t_typ t0 <> tokNewline ->
+  forall mt sy rf L C cur lines, NoDup (sy ++ dnames es) ->
+  exists n L' cur' lines',
+    (forall f, parse_run (n + f) PLine (pq mt sy rf (body es ++ t0 :: r0) L C cur lines) =
+               parse_run f PLine (pq (dmeta mt es) (sy ++ dnames es) (drefs rf es) (t0 :: r0) L' (C + dcount es)%Z cur' lines')) /\
+    essential lines' = essential lines ++ elines C es.
+Proof.
+  induction es as [|[x k] t IH]; intros Hok Hk t0 r0 Ht0 mt sy rf L C cur lines Hnd.
+  - exists 0%nat, L, cur, lines. cbn [body app dnames drefs elines dmeta dcount]. rewrite !app_nil_r, Z.add_0_r. split; [intros f; reflexivity|reflexivity].
+  - inversion Hok as [|a b Hx Ht]; subst. inversion Hk as [|a b Hk1 Hk2]; subst. cbn [fst snd] in Hx, Hk1.
+    destruct k as [|k]; [lia|].
+    assert (Hrest : exists t1 r1, body t ++ t0 :: r0 = t1 :: r1 /\ t_typ t1 <> tokNewline).
+    { destruct t as [|[y ky] t']; [exists t0, r0; split; [reflexivity|exact Ht0]|].
+      inversion Ht as [|a b Hy _]; subst. cbn [fst] in Hy. rewrite body_cons.
+      destruct y as [i|c|kw e cmt]; cbn [lelem_toks].
+      - destruct (tline_toks_head i Hy) as [t1 [r1 [E Hn]]]. rewrite E. cbn [app]. eexists _, _. split; [reflexivity|exact Hn].
+      - cbn [app]. eexists _, _. split; [reflexivity|discriminate].
+      - cbn [app]. eexists _, _. split; [reflexivity|discriminate]. }
+    destruct Hrest as [t1 [r1 [Eb Hn1]]].
+    rewrite body_cons. rewrite <- !app_assoc. rewrite Eb.
+    destruct x as [i|c|kw e cmt]; cbn [lelem_toks].
+    + change (dnames ((LInstr i, S k) :: t)) with (lnames (tl_labs i) ++ dnames t) in *.
+      change (drefs rf ((LInstr i, S k) :: t)) with (drefs (refs_after rf i) t).
+      change (elines C ((LInstr i, S k) :: t)) with (tline_sline C i :: elines (C + 1) t).
+      change (dmeta mt ((LInstr i, S k) :: t)) with (dmeta mt t).
+      change (dcount ((LInstr i, S k) :: t)) with (1 + dcount t)%Z.
+      rewrite app_assoc in Hnd.
+      destruct (tline_run_more mt sy rf i k t1 r1 L C cur lines Hx (nodup_app_l _ _ _ Hnd) Hn1) as [n [L' [cur' [lines' [H1 E1]]]]].
+      destruct (IH Ht Hk2 t0 r0 Ht0 mt (sy ++ lnames (tl_labs i)) (refs_after rf i) L' (C + 1)%Z cur' lines' Hnd) as [n2 [L2 [cur2 [lines2 [H2 E2]]]]].
+      exists (n + n2)%nat, L2, cur2, lines2. split.
+      * intros f. rewrite <- Nat.add_assoc. rewrite H1. rewrite <- Eb. rewrite H2. rewrite <- app_assoc.
+        replace (C + 1 + dcount t)%Z with (C + (1 + dcount t))%Z by lia. reflexivity.
+      * rewrite E2, E1. rewrite <- !app_assoc. reflexivity.
+    + change (dnames ((LComment c, S k) :: t)) with (dnames t) in *.
+      change (drefs rf ((LComment c, S k) :: t)) with (drefs rf t).
+      change (elines C ((LComment c, S k) :: t)) with (comment_sline c :: elines C t).
+      change (dmeta mt ((LComment c, S k) :: t)) with (dmeta (read_metadata mt c) t).
+      change (dcount ((LComment c, S k) :: t)) with (dcount t).
+      destruct (comment_run_more mt sy rf c k t1 r1 L C cur lines Hn1) as [n [L' [cur' [lines' [H1 E1]]]]].
+      destruct (IH Ht Hk2 t0 r0 Ht0 (read_metadata mt c) sy rf L' C cur' lines' Hnd) as [n2 [L2 [cur2 [lines2 [H2 E2]]]]].
+      exists (n + n2)%nat, L2, cur2, lines2. split.
+      * intros f. rewrite <- Nat.add_assoc. cbn [app]. rewrite H1. rewrite <- Eb. apply H2.
+      * rewrite E2, E1. rewrite <- !app_assoc. reflexivity.
+    + change (dnames ((LDir kw e cmt, S k) :: t)) with (dnames t) in *.
+      change (drefs rf ((LDir kw e cmt, S k) :: t)) with (drefs (add_refs rf e) t).
+      change (elines C ((LDir kw e cmt, S k) :: t)) with (dir_sline kw e cmt :: elines C t).
+      change (dmeta mt ((LDir kw e cmt, S k) :: t)) with (dmeta mt t).
+      change (dcount ((LDir kw e cmt, S k) :: t)) with (dcount t).
+      destruct (dir_run_more mt sy rf kw e cmt k t1 r1 L C cur lines Hx Hn1) as [n [L' [cur' [lines' [H1 E1]]]]].
+      destruct (IH Ht Hk2 t0 r0 Ht0 mt sy (add_refs rf e) L' C cur' lines' Hnd) as [n2 [L2 [cur2 [lines2 [H2 E2]]]]].
+      exists (n + n2)%nat, L2, cur2, lines2. split.
+      * intros f. rewrite <- Nat.add_assoc. cbn [app]. rewrite <- !app_assoc. rewrite H1. rewrite <- Eb. apply H2.
+      * rewrite E2, E1. rewrite <- !app_assoc. reflexivity.
+Qed.
+
+Lemma ends_ok_front es x : ends_ok (es ++ [x]) -> Forall (fun xk => (1 <= snd xk)%nat) es.
+Proof.
+  induction es as [|[y ky] t IH]; intros H; [constructor|]. cbn [app] in H.
+  destruct (t ++ [x]) as [|p l] eqn:E; [destruct t; discriminate E|].
+  cbn [ends_ok] in H. destruct H as [H1 H2]. constructor; [exact H1|]. apply IH. exact H2.
+Qed.
+
+(* a document that runs to the end of the text: the last line may lack its line end *)
 Theorem doc_run : forall es, Forall (fun xk => lelem_ok (fst xk)) es -> ends_ok es ->
   forall mt sy rf L C cur lines, NoDup (sy ++ dnames es) ->
   exists n pf,
     (forall f, parse_run (n + f) PLine (pq mt sy rf (body es ++ [tEOF]) L C cur lines) = Some pf) /\
     finished pf (sy ++ dnames es) (drefs rf es) (essential lines ++ elines C es) (dmeta mt es).
 Proof.
-  induction es as [|[x k] t IH]; intros Hok Hends mt sy rf L C cur lines Hnd.
+  intros es Hok Hends mt sy rf L C cur lines Hnd.
+  (* split off the last line *)
+  destruct es as [|x0 es0] using rev_ind.
   - eexists 1%nat, _. split; [intros f; cbn [Nat.add body app]; rewrite parse_run_S, q_line_eof; reflexivity|].
-    unfold finished. cbn [pq p_err p_syms p_refs p_lines p_meta dnames drefs elines dmeta]. rewrite !app_nil_r. repeat split.
-  - inversion Hok as [|a b Hx Ht]; subst. cbn [fst] in Hx.
-    destruct (body_head t Ht) as [t0 [r0 [Eb Hn0]]].
-    destruct t as [|y t'].
-    + (* the last line *)
-      cbn [body app] in Eb |- *. rewrite app_nil_r.
-      destruct k as [|k].
-      * cbn [repeat app]. rewrite app_nil_r. destruct x as [i|c]; cbn [lelem_toks dnames drefs elines dmeta].
-        -- cbn [dnames] in Hnd. rewrite app_nil_r in Hnd. rewrite app_nil_r. apply tline_run_last; assumption.
-        -- rewrite app_nil_r. cbn [app]. apply comment_run_last.
-      * (* line ends after it, then the end of the text *)
-        destruct x as [i|c]; cbn [lelem_toks dnames drefs elines dmeta].
-        -- cbn [dnames] in Hnd. rewrite app_nil_r in Hnd |- *.
-           destruct (tline_run_more mt sy rf i k tEOF [] L C cur lines Hx Hnd ltac:(discriminate)) as [n [L' [cur' [lines' [H1 E1]]]]].
-           eexists (n + 1)%nat, _. split.
-           ++ intros f. replace (n + 1 + f)%nat with (n + S f)%nat by lia. rewrite <- app_assoc. rewrite H1.
-              rewrite parse_run_S, q_line_eof. reflexivity.
-           ++ unfold finished. cbn [pq p_err p_syms p_refs p_lines p_meta]. repeat split. exact E1.
-        -- rewrite app_nil_r.
-           destruct (comment_run_more mt sy rf c k tEOF [] L C cur lines ltac:(discriminate)) as [n [L' [cur' [lines' [H1 E1]]]]].
-           eexists (n + 1)%nat, _. split.
-           ++ intros f. replace (n + 1 + f)%nat with (n + S f)%nat by lia. cbn [app]. rewrite H1.
-              rewrite parse_run_S, q_line_eof. reflexivity.
-           ++ unfold finished. cbn [pq p_err p_syms p_refs p_lines p_meta]. repeat split. exact E1.
-    + (* a line, its line ends, more lines *)
-      destruct Hends as [Hk Hends]. destruct k as [|k]; [lia|].
-      rewrite (body_cons x (S k) (y :: t')). rewrite <- !app_assoc. rewrite Eb.
-      destruct x as [i|c]; cbn [lelem_toks].
-      2: change (dnames ((LComment c, S k) :: y :: t')) with (dnames (y :: t')) in *;
-         change (drefs rf ((LComment c, S k) :: y :: t')) with (drefs rf (y :: t'));
-         change (elines C ((LComment c, S k) :: y :: t')) with (comment_sline c :: elines C (y :: t'));
-         change (dmeta mt ((LComment c, S k) :: y :: t')) with (dmeta (read_metadata mt c) (y :: t')).
-      1: change (dnames ((LInstr i, S k) :: y :: t')) with (lnames (tl_labs i) ++ dnames (y :: t')) in *;
-         change (drefs rf ((LInstr i, S k) :: y :: t')) with (drefs (refs_after rf i) (y :: t'));
-         change (elines C ((LInstr i, S k) :: y :: t')) with (tline_sline C i :: elines (C + 1) (y :: t'));
-         change (dmeta mt ((LInstr i, S k) :: y :: t')) with (dmeta mt (y :: t')).
-      * rewrite app_assoc in Hnd.
-        assert (Hnd1 : NoDup (sy ++ lnames (tl_labs i))).
-        { clear - Hnd. revert Hnd. generalize (sy ++ lnames (tl_labs i)) as l1, (dnames (y :: t')) as l2.
-          induction l1 as [|a l1 IH]; intros l2 H; [constructor|]. cbn [app] in H. inversion H; subst. constructor.
-          - intros Hin. apply H2. apply in_or_app. left. exact Hin.
-          - eapply IH. eassumption. }
-        destruct (tline_run_more mt sy rf i k t0 r0 L C cur lines Hx Hnd1 Hn0) as [n [L' [cur' [lines' [H1 E1]]]]].
-        destruct (IH Ht Hends mt (sy ++ lnames (tl_labs i)) (refs_after rf i) L' (C + 1)%Z cur' lines' Hnd) as [n2 [pf [H2 F2]]].
-        exists (n + n2)%nat, pf. split.
-        -- intros f. rewrite <- Nat.add_assoc. rewrite H1. rewrite <- Eb. apply H2.
-        -- rewrite E1 in F2. rewrite <- !app_assoc in F2. exact F2.
-      * destruct (comment_run_more mt sy rf c k t0 r0 L C cur lines Hn0) as [n [L' [cur' [lines' [H1 E1]]]]].
-        destruct (IH Ht Hends (read_metadata mt c) sy rf L' C cur' lines' Hnd) as [n2 [pf [H2 F2]]].
-        exists (n + n2)%nat, pf. split.
-        -- intros f. rewrite <- Nat.add_assoc. cbn [app]. rewrite H1. rewrite <- Eb. apply H2.
-        -- rewrite E1 in F2. rewrite <- !app_assoc in F2. exact F2.
+    unfold finished. cbn [pqg p_err p_syms p_refs p_lines p_meta dnames drefs elines dmeta]. rewrite !app_nil_r. repeat split.
+  - clear IHes0. destruct x0 as [x k].
+    apply Forall_app in Hok. destruct Hok as [Hok0 Hokx]. inversion Hokx as [|a b Hx _]; subst. cbn [fst] in Hx.
+    pose proof (ends_ok_front es0 (x, k) Hends) as Hk0.
+    assert (Eb : body (es0 ++ [(x, k)]) = body es0 ++ lelem_toks x ++ repeat nl_tok k).
+    { clear. induction es0 as [|[y ky] t IH]; cbn [app body]; [rewrite app_nil_r; reflexivity|]. rewrite IH, <- !app_assoc. reflexivity. }
+    assert (En : dnames (es0 ++ [(x, k)]) = dnames es0 ++ dnames [(x, k)]).
+    { clear. induction es0 as [|[y ky] t IH]; [reflexivity|]. cbn [app]. destruct y; cbn [dnames]; rewrite ?IH, <- ?app_assoc; reflexivity. }
+    assert (Er : forall rf0, drefs rf0 (es0 ++ [(x, k)]) = drefs (drefs rf0 es0) [(x, k)]).
+    { clear. induction es0 as [|[y ky] t IH]; intros rf0; [reflexivity|]. cbn [app]. destruct y; cbn [drefs]; apply IH. }
+    assert (El : forall C0, elines C0 (es0 ++ [(x, k)]) = elines C0 es0 ++ elines (C0 + dcount es0) [(x, k)]).
+    { clear. induction es0 as [|[y ky] t IH]; intros C0; [cbn [app elines dcount]; rewrite Z.add_0_r; reflexivity|].
+      cbn [app]. destruct y; cbn [elines dcount]; rewrite IH; cbn [app]; rewrite ?Z.add_assoc; reflexivity. }
+    assert (Em : forall mt0, dmeta mt0 (es0 ++ [(x, k)]) = dmeta (dmeta mt0 es0) [(x, k)]).
+    { clear. induction es0 as [|[y ky] t IH]; intros mt0; [reflexivity|]. cbn [app]. destruct y; cbn [dmeta]; apply IH. }
+    rewrite Eb, En, Er, El, Em. rewrite En in Hnd. rewrite app_assoc in Hnd.
+    assert (Hhead : exists t1 r1, (lelem_toks x ++ repeat nl_tok k) ++ [tEOF] = t1 :: r1 /\ t_typ t1 <> tokNewline).
+    { destruct x as [i|c|kw e cmt]; cbn [lelem_toks].
+      - destruct (tline_toks_head i Hx) as [t1 [r1 [E Hn]]]. rewrite E. cbn [app]. eexists _, _. split; [reflexivity|exact Hn].
+      - cbn [app]. eexists _, _. split; [reflexivity|discriminate].
+      - cbn [app]. eexists _, _. split; [reflexivity|discriminate]. }
+    destruct Hhead as [t1 [r1 [Eh Hn1]]].
+    destruct (doc_run_more es0 Hok0 Hk0 t1 r1 Hn1 mt sy rf L C cur lines (nodup_app_l _ _ _ Hnd)) as [n1 [L1 [cur1 [lines1 [H1 E1]]]]].
+    set (mt1 := dmeta mt es0) in *. set (sy1 := sy ++ dnames es0) in *. set (rf1 := drefs rf es0) in *. set (C1 := (C + dcount es0)%Z) in *.
+    assert (Hlast : exists n2 pf, (forall f, parse_run (n2 + f) PLine (pq mt1 sy1 rf1 (t1 :: r1) L1 C1 cur1 lines1) = Some pf) /\
+                      finished pf (sy1 ++ dnames [(x, k)]) (drefs rf1 [(x, k)]) (essential lines1 ++ elines C1 [(x, k)]) (dmeta mt1 [(x, k)])).
+    { rewrite <- Eh. destruct k as [|k].
+      - cbn [repeat]. rewrite app_nil_r. destruct x as [i|c|kw e cmt]; cbn [lelem_toks dnames drefs elines dmeta].
+        + rewrite app_nil_r. cbn [dnames] in Hnd. rewrite app_nil_r in Hnd. apply tline_run_last; assumption.
+        + rewrite app_nil_r. cbn [app]. apply comment_run_last.
+        + rewrite app_nil_r. cbn [app]. rewrite <- app_assoc. apply dir_run_last. exact Hx.
+      - destruct x as [i|c|kw e cmt]; cbn [lelem_toks dnames drefs elines dmeta].
+        + cbn [dnames] in Hnd. rewrite app_nil_r in Hnd |- *.
+          destruct (tline_run_more mt1 sy1 rf1 i k tEOF [] L1 C1 cur1 lines1 Hx Hnd ltac:(discriminate)) as [n [L' [cur' [lines' [H2 E2]]]]].
+          eexists (n + 1)%nat, _. split.
+          * intros f. replace (n + 1 + f)%nat with (n + S f)%nat by lia. rewrite <- ?app_assoc. rewrite H2.
+            rewrite parse_run_S, q_line_eof. reflexivity.
+          * unfold finished. cbn [pqg p_err p_syms p_refs p_lines p_meta]. repeat split. exact E2.
+        + rewrite app_nil_r.
+          destruct (comment_run_more mt1 sy1 rf1 c k tEOF [] L1 C1 cur1 lines1 ltac:(discriminate)) as [n [L' [cur' [lines' [H2 E2]]]]].
+          eexists (n + 1)%nat, _. split.
+          * intros f. replace (n + 1 + f)%nat with (n + S f)%nat by lia. cbn [app]. rewrite <- ?app_assoc. rewrite H2.
+            rewrite parse_run_S, q_line_eof. reflexivity.
+          * unfold finished. cbn [pqg p_err p_syms p_refs p_lines p_meta]. repeat split. exact E2.
+        + rewrite app_nil_r.
+          destruct (dir_run_more mt1 sy1 rf1 kw e cmt k tEOF [] L1 C1 cur1 lines1 Hx ltac:(discriminate)) as [n [L' [cur' [lines' [H2 E2]]]]].
+          eexists (n + 1)%nat, _. split.
+          * intros f. replace (n + 1 + f)%nat with (n + S f)%nat by lia. cbn [app]. rewrite <- ?app_assoc. rewrite H2.
+            rewrite parse_run_S, q_line_eof. reflexivity.
+          * unfold finished. cbn [pqg p_err p_syms p_refs p_lines p_meta]. repeat split. exact E2. }
+    destruct Hlast as [n2 [pf [H2 F2]]].
+    exists (n1 + n2)%nat, pf. split.
+    + intros f. rewrite <- !app_assoc. rewrite <- app_assoc in Eh. rewrite Eh. rewrite <- Nat.add_assoc. rewrite H1. apply H2.
+    + rewrite E1 in F2. unfold sy1 in F2. rewrite <- ?app_assoc in F2. rewrite <- ?app_assoc. exact F2.
 Qed.
+
+(* ---------- the END line, and what the parser does after it: nothing ---------- *)
+Record endline := mkEnd { en_labs : list ltok; en_kw : text; en_e : list token; en_cmt : option text; en_nls : nat }.
+Definition end_toks (x : endline) : list token :=
+  map ltok_tok (en_labs x) ++ mkT tokText (en_kw x) :: en_e x ++ cmt_toks (en_cmt x) ++ repeat nl_tok (en_nls x).
+Definition end_sline (x : endline) : sline :=
+  mkSL 0 0 linePseudoOp (lnames (en_labs x)) (en_kw x) [] (en_e x) [] [] (match en_cmt x with Some c => c | None => [] end) 0.
+Definition end_ok (x : endline) : Prop :=
+  (match en_labs x with [] | LName _ :: _ => True | _ => False end) /\
+  Forall label_name (lnames (en_labs x)) /\ kw_tok (mkT tokText (en_kw x)) /\ lower_is (en_kw x) "end" = true /\
+  Forall term_tok (en_e x).
+
+Definition ended (pf : parser) (sy rf : list text) (mt : pmeta) (lines : list sline) (Y : sline) : Prop :=
+  p_err pf = false /\ p_syms pf = sy /\ p_refs pf = rf /\ p_meta pf = mt /\
+  exists X, p_lines pf = lines ++ [X] /\ core X = core Y /\ is_blank X = is_blank Y.
+
+Lemma fin_comment mt sy rf c k L C cur lines :
+  exists n pf, (forall f, parse_run (n + f) Parser.PComment (pqg true mt sy rf (mkT tokComment c :: repeat nl_tok k ++ [tEOF]) L C cur lines) = Some pf) /\
+    ended pf sy rf mt lines (set_comment cur c).
+Proof.
+  destruct k as [|k].
+  - eexists 1%nat, _. split; [intros f; cbn [Nat.add repeat app]; rewrite parse_run_S, q_comment_eof_g; reflexivity|].
+    unfold ended. cbn [pqg p_err p_syms p_refs p_lines p_meta]. repeat split. eexists. split; [reflexivity|split; reflexivity].
+  - cbn [repeat app]. destruct (repeat nl_tok k ++ [tEOF]) as [|x y] eqn:Er; [destruct k; discriminate Er|].
+    eexists 2%nat, _. split.
+    + intros f. cbn [Nat.add]. rewrite parse_run_S.
+      rewrite q_comment_nl_g. rewrite parse_run_S, q_line_ended. reflexivity.
+    + unfold ended. cbn [pqg p_err p_syms p_refs p_lines p_meta]. repeat split. eexists. split; [reflexivity|split; reflexivity].
+Qed.
+
+Lemma end_run mt sy rf x L C cur lines :
+  end_ok x -> NoDup (sy ++ lnames (en_labs x)) ->
+  exists n pf,
+    (forall f, parse_run (n + f) PLine (pq mt sy rf (end_toks x ++ [tEOF]) L C cur lines) = Some pf) /\
+    finished pf (sy ++ lnames (en_labs x)) (add_refs rf (en_e x)) (essential lines ++ [end_sline x]) mt.
+Proof.
+  intros [Hhd [Hnm [Hkw [Hend He]]]] Hnd.
+  set (o := mkT tokText (en_kw x)) in *.
+  assert (Hps : tok_is_pseudo o = true).
+  { unfold tok_is_pseudo, is_pseudo_text, o. cbn [t_val]. unfold lower_is in Hend. rewrite Hend. reflexivity. }
+  assert (Hno : tok_no_operands_ok o = true) by (unfold tok_no_operands_ok, o; cbn [t_val]; rewrite Hend; reflexivity).
+  assert (Hie : is_end o = true) by exact Hend.
+  set (rest := en_e x ++ cmt_toks (en_cmt x) ++ repeat nl_tok (en_nls x) ++ [tEOF]).
+  assert (Et : end_toks x ++ [tEOF] = map ltok_tok (en_labs x) ++ o :: rest).
+  { unfold end_toks, rest. rewrite <- !app_assoc. cbn [app]. rewrite <- !app_assoc. reflexivity. }
+  rewrite Et. clear Et.
+  destruct (lab_phase mt rf o rest C lines Hkw (length (en_labs x)) (en_labs x) (le_n _) Hnm sy Hnd L (empty_sline L)) as [[n1 [L1 H1]] _].
+  unfold op_state in H1. rewrite Hps in H1.
+  set (sy1 := sy ++ lnames (en_labs x)) in *.
+  set (cur0 := add_labels (empty_sline L) (lnames (en_labs x))) in *.
+  set (c1 := after_kw cur0 o).
+  (* what the rest of the line does, from the keyword on *)
+  assert (Hfin : exists n2 pf, (forall f, parse_run (n2 + f) PPseudoOp (pq mt sy1 rf (o :: rest) L1 C cur0 lines) = Some pf) /\
+            ended pf sy1 (add_refs rf (en_e x)) mt lines
+                  (match en_cmt x with Some c => set_comment (set_a c1 (en_e x)) c | None => set_a c1 (en_e x) end)).
+  { unfold rest. destruct (en_e x) as [|e0 e'] eqn:Ee.
+    - cbn [app add_refs fold_left]. destruct (en_cmt x) as [c|] eqn:Ec; cbn [cmt_toks app].
+      + destruct (fin_comment mt sy1 rf c (en_nls x) L1 C c1 lines) as [n [pf [Hr Hf]]].
+        exists (S n), pf. split; [|exact Hf].
+        intros f. cbn [Nat.add]. rewrite parse_run_S, q_pseudo_op_comment by discriminate. rewrite Hie. cbn [orb]. apply Hr.
+      + destruct (en_nls x) as [|k]; cbn [repeat app].
+        * destruct (q_pseudo_op_eof false mt sy1 rf o L1 C cur0 lines ltac:(discriminate) Hno) as [pf [Hs [F1 [F2 [F3 [F4 F5]]]]]].
+          exists 1%nat, pf. split; [intros f; cbn [Nat.add]; rewrite parse_run_S, Hs; reflexivity|].
+          unfold ended. repeat split; try assumption. eexists. split; [exact F5|split; reflexivity].
+        * destruct (repeat nl_tok k ++ [tEOF]) as [|y z] eqn:Er; [destruct k; discriminate Er|].
+          eexists 2%nat, _. split.
+          -- intros f. cbn [Nat.add]. rewrite parse_run_S.
+             rewrite q_pseudo_op_nl by (try discriminate; exact Hno). rewrite Hie. cbn [orb]. rewrite parse_run_S, q_line_ended. reflexivity.
+          -- unfold ended. cbn [pqg p_err p_syms p_refs p_lines p_meta]. repeat split. eexists. split; [reflexivity|split; reflexivity].
+    - inversion He as [|a b He0 He']; subst a b.
+      assert (Hstep : forall X f, parse_run (S f) PPseudoOp (pq mt sy1 rf (o :: (e0 :: e') ++ X) L1 C cur0 lines) =
+                                  parse_run f PPseudoExpr (pqg true mt sy1 rf ((e0 :: e') ++ X) L1 C c1 lines)).
+      { intros X f. rewrite parse_run_S. cbn [app]. rewrite q_pseudo_op_expr by (try discriminate; exact He0). rewrite Hie. reflexivity. }
+      destruct (en_cmt x) as [c|] eqn:Ec; cbn [cmt_toks].
+      + destruct (fin_comment mt sy1 (add_refs rf (e0 :: e')) c (en_nls x) L1 C (set_a c1 (e0 :: e')) lines) as [n [pf [Hr Hf]]].
+        exists (S (S n)), pf. split; [|exact Hf].
+        intros f. cbn [Nat.add]. rewrite Hstep. rewrite parse_run_S. cbn [app].
+        change (e0 :: e' ++ mkT tokComment c :: repeat nl_tok (en_nls x) ++ [tEOF]) with ((e0 :: e') ++ mkT tokComment c :: repeat nl_tok (en_nls x) ++ [tEOF]).
+        rewrite q_pseudo_expr by (try assumption; reflexivity). cbn [t_typ]. apply Hr.
+      + cbn [app]. destruct (en_nls x) as [|k]; cbn [repeat app].
+        * eexists 3%nat, _. split.
+          -- intros f. cbn [Nat.add]. change (o :: e0 :: e' ++ [tEOF]) with (o :: (e0 :: e') ++ [tEOF]). rewrite Hstep. rewrite parse_run_S.
+             rewrite q_pseudo_expr by (try assumption; reflexivity). cbn [t_typ tEOF].
+             rewrite parse_run_S, q_line_ended. reflexivity.
+          -- unfold ended. cbn [pqg p_err p_syms p_refs p_lines p_meta]. repeat split. eexists. split; [reflexivity|split; reflexivity].
+        * destruct (repeat nl_tok k ++ [tEOF]) as [|y z] eqn:Er; [destruct k; discriminate Er|].
+          eexists 3%nat, _. split.
+          -- intros f. cbn [Nat.add]. change (o :: e0 :: e' ++ nl_tok :: y :: z) with (o :: (e0 :: e') ++ nl_tok :: y :: z).
+             rewrite Hstep. rewrite parse_run_S.
+             rewrite q_pseudo_expr by (try assumption; reflexivity). cbn [t_typ nl_tok].
+             rewrite pnext_pq. cbn [t_typ nl_tok].
+             change (p_push_line (cur_newline (pqg true mt sy1 (add_refs rf (e0 :: e')) (y :: z) (L1 + 1)%Z C (set_a c1 (e0 :: e')) lines)))
+               with (pqg true mt sy1 (add_refs rf (e0 :: e')) (y :: z) (L1 + 1)%Z C (add_newline (set_a c1 (e0 :: e'))) (lines ++ [add_newline (set_a c1 (e0 :: e'))])).
+             rewrite parse_run_S, q_line_ended. reflexivity.
+          -- unfold ended. cbn [pqg p_err p_syms p_refs p_lines p_meta]. repeat split. eexists. split; [reflexivity|split; reflexivity]. }
+  destruct Hfin as [n2 [pf [H2 [F1 [F2 [F3 [F4 [X [F5 [F6 F7]]]]]]]]]].
+  exists (S (n1 + n2)), pf. split.
+  - intros f. cbn [Nat.add]. rewrite parse_run_S.
+    assert (Hs : parse_step PLine (pq mt sy rf (map ltok_tok (en_labs x) ++ o :: rest) L C cur lines) =
+                 (pq mt sy rf (map ltok_tok (en_labs x) ++ o :: rest) L C (empty_sline L) lines, Some PLabels)).
+    { destruct (en_labs x) as [|[n| |] t]; try (destruct Hhd; fail); cbn [map app ltok_tok]; apply q_line_text; reflexivity. }
+    rewrite Hs. rewrite <- Nat.add_assoc. rewrite H1. apply H2.
+  - unfold finished. repeat split; try assumption. rewrite F5.
+    assert (Hcore : core X = end_sline x /\ is_blank X = false).
+    { rewrite F6, F7. unfold end_sline, c1, cur0, after_kw. destruct (en_cmt x); split; reflexivity. }
+    destruct Hcore as [Hc1 Hc2]. rewrite essential_line by exact Hc2. rewrite Hc1. reflexivity.
+Qed.
+
+(* a document whose last line is an END line *)
+Definition ldoc_end_toks (lead : nat) (es : list (lelem * nat)) (x : endline) : list token :=
+  repeat nl_tok lead ++ body es ++ end_toks x ++ [tEOF].
 
 (* ---------- the parser as a whole ---------- *)
 Definition p_init (toks : list token) : parser :=
@@ -810,7 +1164,10 @@ Lemma body_nonterm es : Forall (fun xk => lelem_ok (fst xk)) es -> Forall nonter
 Proof.
   induction es as [|[x k] t IH]; intros H; [constructor|]. inversion H as [|a b Hx Ht]; subst. cbn [fst] in Hx.
   cbn [body]. apply Forall_app. split; [|apply Forall_app; split; [apply repeat_nl_nonterm|apply IH; exact Ht]].
-  destruct x as [i|c]; [apply tline_toks_nonterm; exact Hx|repeat constructor].
+  destruct x as [i|c|kw e cmt]; [apply tline_toks_nonterm; exact Hx|repeat constructor|].
+  destruct Hx as [_ [_ [_ [He _]]]]. cbn [lelem_toks]. constructor; [reflexivity|]. apply Forall_app. split.
+  - eapply Forall_impl; [apply term_nonterm|exact He].
+  - destruct cmt; repeat constructor.
 Qed.
 Lemma ldoc_closed lead es : Forall (fun xk => lelem_ok (fst xk)) es -> closed_stream (ldoc_toks lead es).
 Proof.
@@ -835,5 +1192,57 @@ Proof.
   rewrite (parse_from_run _ _ _ (ldoc_closed lead es Hok) Hrun). rewrite F1, F2, F3.
   replace (forallb (fun r => mem_text r (predefined ++ dnames es)) (drefs [] es)) with true.
   - exists (p_lines pf). split; [rewrite F5; reflexivity|]. rewrite F4, E1. reflexivity.
+  - symmetry. apply forallb_forall. intros r Hr. apply mem_text_in. apply Hrefs. exact Hr.
+Qed.
+
+Lemma end_toks_nonterm x : end_ok x -> Forall nonterm (end_toks x).
+Proof.
+  intros [_ [_ [_ [_ He]]]]. unfold end_toks. apply Forall_app. split.
+  - induction (en_labs x) as [|[n| |] t IH]; cbn [map]; constructor; try exact IH; reflexivity.
+  - constructor; [reflexivity|]. apply Forall_app. split; [eapply Forall_impl; [apply term_nonterm|exact He]|].
+    apply Forall_app. split; [destruct (en_cmt x); repeat constructor|apply repeat_nl_nonterm].
+Qed.
+Lemma end_toks_head x : end_ok x -> exists t0 r0, end_toks x ++ [tEOF] = t0 :: r0 /\ t_typ t0 <> tokNewline.
+Proof.
+  intros [Hhd _]. unfold end_toks. destruct (en_labs x) as [|[n| |] t]; try (destruct Hhd; fail); cbn [map app ltok_tok];
+    eexists _, _; (split; [reflexivity|discriminate]).
+Qed.
+Lemma ldoc_end_closed lead es x : Forall (fun xk => lelem_ok (fst xk)) es -> end_ok x -> closed_stream (ldoc_end_toks lead es x).
+Proof.
+  intros H Hx. exists (repeat nl_tok lead ++ body es ++ end_toks x), tEOF. split; [unfold ldoc_end_toks; rewrite <- !app_assoc; reflexivity|].
+  split; [reflexivity|]. apply Forall_app. split; [apply repeat_nl_nonterm|]. apply Forall_app. split; [apply body_nonterm; exact H|apply end_toks_nonterm; exact Hx].
+Qed.
+
+Theorem parse_ldoc_end lead es x :
+  Forall (fun xk => lelem_ok (fst xk)) es -> Forall (fun xk => (1 <= snd xk)%nat) es -> end_ok x ->
+  NoDup (predefined ++ dnames es ++ lnames (en_labs x)) ->
+  (forall r, In r (add_refs (drefs [] es) (en_e x)) -> In r (predefined ++ dnames es ++ lnames (en_labs x))) ->
+  exists lines, parse (ldoc_end_toks lead es x) = Some (Some (lines, dmeta (mkPM [] [] []) es)) /\
+                essential lines = elines 0 es ++ [end_sline x].
+Proof.
+  intros Hok Hk Hx Hnd Hrefs.
+  destruct (end_toks_head x Hx) as [t0 [r0 [Ee Hn0]]].
+  assert (Hhead : exists t1 r1, body es ++ end_toks x ++ [tEOF] = t1 :: r1 /\ t_typ t1 <> tokNewline).
+  { destruct es as [|[y ky] t']; [exists t0, r0; split; [exact Ee|exact Hn0]|].
+    inversion Hok as [|a b Hy _]; subst. cbn [fst] in Hy. rewrite body_cons.
+    destruct y as [i|c|kw e cmt]; cbn [lelem_toks].
+    - destruct (tline_toks_head i Hy) as [t1 [r1 [E Hn]]]. rewrite E. cbn [app]. eexists _, _. split; [reflexivity|exact Hn].
+    - cbn [app]. eexists _, _. split; [reflexivity|discriminate].
+    - cbn [app]. eexists _, _. split; [reflexivity|discriminate]. }
+  destruct Hhead as [t1 [r1 [Eb Hn1]]].
+  assert (Ei : p_init (ldoc_end_toks lead es x) = pq (mkPM [] [] []) predefined [] (ldoc_end_toks lead es x) 1 0 (empty_sline 1) []).
+  { unfold ldoc_end_toks. rewrite Eb. destruct lead; reflexivity. }
+  destruct (skip_nls (mkPM [] [] []) predefined [] lead t1 r1 1 0 (empty_sline 1) [] Hn1) as [n1 [L1 [cur1 [lines1 [H1 E1]]]]].
+  rewrite app_assoc in Hnd.
+  destruct (doc_run_more es Hok Hk t0 r0 Hn0 (mkPM [] [] []) predefined [] L1 0%Z cur1 lines1 (nodup_app_l _ _ _ Hnd))
+    as [n2 [L2 [cur2 [lines2 [H2 E2]]]]].
+  destruct (end_run (dmeta (mkPM [] [] []) es) (predefined ++ dnames es) (drefs [] es) x L2 (0 + dcount es)%Z cur2 lines2 Hx Hnd)
+    as [n3 [pf [H3 [F1 [F2 [F3 [F4 F5]]]]]]].
+  assert (Hrun : parse_run (n1 + (n2 + (n3 + 0))) PLine (p_init (ldoc_end_toks lead es x)) = Some pf).
+  { rewrite Ei. unfold ldoc_end_toks. rewrite Eb. rewrite H1. rewrite <- Eb. rewrite <- Ee in H2. rewrite H2. rewrite Ee, <- Ee. apply H3. }
+  rewrite (parse_from_run _ _ _ (ldoc_end_closed lead es x Hok Hx) Hrun). rewrite F1, F2, F3.
+  rewrite <- app_assoc.
+  replace (forallb (fun r => mem_text r (predefined ++ dnames es ++ lnames (en_labs x))) (add_refs (drefs [] es) (en_e x))) with true.
+  - exists (p_lines pf). split; [rewrite F5; reflexivity|]. rewrite F4, E2, E1. reflexivity.
   - symmetry. apply forallb_forall. intros r Hr. apply mem_text_in. apply Hrefs. exact Hr.
 Qed.
